@@ -146,7 +146,6 @@ class StreamingResponse(Response, abc.ABC, Generic[_ContentType]):
     ) -> None:
         super().__init__(status_code, headers)
         self.iterable = iterable
-        self._client_closed = False
 
     @abc.abstractmethod
     async def render_stream(self) -> AsyncGenerator[bytes, None]:
@@ -154,16 +153,20 @@ class StreamingResponse(Response, abc.ABC, Generic[_ContentType]):
         yield
 
     async def wait_close(self, receive: Receive) -> None:
-        while not self._client_closed:
+        # Returns when the client of this request has gone. That is a fact about
+        # one request: kept on the response object it would end the stream of every
+        # other request the object answers, now and later.
+        while True:
             message = await receive()
-            self._client_closed = message["type"] == "http.disconnect"
+            if message["type"] == "http.disconnect":
+                return
 
     async def __call__(self, scope: Scope, receive: Receive, send: Send) -> None:
         await send_http_start(send, self.status_code, self.list_headers(as_bytes=True))
         wait_close_future = asyncio.ensure_future(self.wait_close(receive))
         generator = self.render_stream()
         try:
-            while not self._client_closed:
+            while not wait_close_future.done():
                 chunk = await generator.asend(None)
                 await send_http_body(send, chunk, more_body=True)
         except StopAsyncIteration:
